@@ -41,6 +41,14 @@ def classify(pieces, cuts):
     for i, (a, b, k) in enumerate(offs):
         if k == "G" and i > 0:
             return "D6-garbage-after-frame"
+    for i, (a, b, k) in enumerate(offs[:-1]):
+        # junk in front of a frame is counted when the decoder asks "is the frame complete?": a read that
+        # ends within the last len(junk) bytes of the frame makes it parse the incomplete frame and drop it
+        if k == "G" and offs[i + 1][2] == "F":
+            fa, fb = offs[i + 1][0], offs[i + 1][1]
+            junk = fa - max([a] + [c for c in cuts if a < c <= fa])      # junk still in the buffer when the frame starts arriving
+            if junk > 0 and any(max(fa + 1, fb - junk) <= c < fb for c in cuts):
+                return "D8-junk-prefix-counted-in-length"
     return None
 
 
